@@ -107,22 +107,23 @@ theorem wr_nil (bs : List Nat) (k : Nat) : wr bs k [] = bs := by simp [wr]
 /-- `grow_at`, also for an empty growth (then nothing happens at all). -/
 theorem Focus.grow {s v p t u m} (F : Focus s v p t u m) (c : Calm m) (k amt : Nat)
     (hk : k ≤ (encode t u).length) (hroom : (encode s v).length + amt ≤ m.orig + maxIncrease) :
-    ∃ (G : List Nat) (m1 : Mem), G.length = amt
+    ∃ (G : List Nat) (m1 : Mem), G = ((m.bytes.drop (offsetOf s v p + k) ++ List.replicate amt 0).take amt)
+      ∧ G.length = amt
       ∧ m.addBytesN ⟨s, p⟩ (offsetOf s v p) (offsetOf s v p + k) amt = (m1, .ok ())
       ∧ m1.bytes = plug s v p ((encode t u).take k ++ G ++ (encode t u).drop k)
       ∧ m1.orig = m.orig ∧ m1.refuse = m.refuse := by
   by_cases hamt : amt = 0
   · subst hamt
-    refine ⟨[], m, rfl, ?_, ?_, rfl, rfl⟩
+    refine ⟨[], m, by simp, rfl, ?_, ?_, rfl, rfl⟩
     · unfold Mem.addBytesN Mem.addBytes
       have hle := offsetOf_le p s v t u F.good F.res
       have h1 : ¬ m.bytes.length < offsetOf s v p + k := by rw [F.bytes]; omega
       simp [h1]
     · simp only [List.append_nil, List.take_append_drop]
       rw [plug_self p s v t u F.good F.res, F.bytes]
-  · obtain ⟨G, hG, hadd⟩ := grow_at p s v t u F.good F.res m F.bytes k amt hk (by omega)
+  · obtain ⟨G, hGd, hG, hadd⟩ := grow_at p s v t u F.good F.res m F.bytes k amt hk (by omega)
       ⟨by rw [c.noRefuse]; simp, by rw [F.bytes]; exact hroom⟩ (by have := c.small; omega)
-    exact ⟨G, _, hG, hadd, rfl, rfl, rfl⟩
+    exact ⟨G, _, hGd, hG, hadd, rfl, rfl, rfl⟩
 
 /-- `List::insert_all` on the bytes `leN lw len ++ records` of the node at `p`. -/
 theorem listInsertAll_bytes {s v p t u m} (F : Focus s v p t u m) (c : Calm m) (ew lw : Nat)
@@ -144,7 +145,7 @@ theorem listInsertAll_bytes {s v p t u m} (F : Focus s v p t u m) (c : Calm m) (
     rw [flatten_width ew items hitems, Nat.mul_comm]
   have hkle : lw + idx * ew ≤ (encode t u).length := by
     rw [hElen]; have := Nat.mul_le_mul_right ew hidx; omega
-  obtain ⟨G, m1, hG, hadd, hb1, ho1, hr1⟩ := F.grow c (lw + idx * ew) (ew * items.length) hkle hroom
+  obtain ⟨G, m1, _, hG, hadd, hb1, ho1, hr1⟩ := F.grow c (lw + idx * ew) (ew * items.length) hkle hroom
   unfold listInsertAll
   simp only [hrdlen]
   have h1 : ¬ es.length < idx := by omega
